@@ -1276,13 +1276,22 @@ def unit_stream(mode):
     loops = loop_specs()
     path = base_path()[:1]
     strict = mode == "strict"
+    I_holder = [None]
 
     def check_iteration(ctx, outcome):
         tr = ctx.trace
         pcs = [x[2] for x in tr if x[0] == "call" and x[1] == "process"]
         pes = [x[2] for x in tr if x[0] == "call" and x[1] == "is_parameter_encryption"]
         site = "marshal.py:process_command_response_stream"
-        ctx.record("STREAM/iteration-decodes-a-command-first", len(pcs) >= 1 and pcs[0]["args"]["tpm_type"] is Command and pcs[0]["args"]["path"] == path and pcs[0]["args"]["abort_on_error"] is strict and pcs[0]["args"]["size_constraints"] is None, site=site)
+
+        def own_regions(sc):
+            # each message is decoded with regions of its own: no list, or a fresh empty one - never the stream's
+            return sc is None or (type(sc).__name__ == "SizeConstraintList" and sc is not ctx.ghost.get("stream_list") and not I_holder[0].note_is_shared(sc))
+
+        ctx.record("STREAM/iteration-decodes-a-command-first", len(pcs) >= 1 and pcs[0]["args"]["tpm_type"] is Command and pcs[0]["args"]["path"] == path and pcs[0]["args"]["abort_on_error"] is strict, site=site)
+        lists = [p["args"]["size_constraints"] for p in pcs[:2]]
+        ok_lists = all(own_regions(sc) for sc in lists) and (len(lists) < 2 or lists[0] is None or lists[0] is not lists[1])
+        ctx.record("STREAM/each-message-is-decoded-with-regions-of-its-own", ok_lists, site=site, detail="a constraint list is shared between messages of the stream" if not ok_lists else "")
         if pcs and pcs[0]["case"] != "return":
             ctx.record("STREAM/command-error-propagates", outcome is not None and outcome[0] == "raise" and outcome[1].exc is pcs[0]["exc"], site=site)
             return
@@ -1293,7 +1302,7 @@ def unit_stream(mode):
         a = pcs[1]["args"]
         if cmd is None:
             return  # warn mode: the command decode gave up; the property says nothing about what follows
-        ok = a["tpm_type"] is Response and a["path"] == path and a["abort_on_error"] is strict and a["size_constraints"] is None
+        ok = a["tpm_type"] is Response and a["path"] == path and a["abort_on_error"] is strict
         ctx.record("STREAM/then-the-response", ok, site=site)
         ctx.record("STREAM/response-uses-the-preceding-commands-code", a["command_code"] is getattr(cmd, "commandCode", None), site=site)
         # encrypted first parameter iff one of that command's sessions requested response encryption
@@ -1317,7 +1326,15 @@ def unit_stream(mode):
     def run(ctx):
         ctx.ghost["mode"] = mode
         I = Interp(ctx, stubs=stubs, loop_specs=loops)
-        igen = run_sync(I.call(M().process_command_response_stream, (path,), {"abort_on_error": strict}))
+        I_holder[0] = I
+        import inspect as _inspect
+        from tpmstream.common.constraints import SizeConstraintList
+
+        kw = {"abort_on_error": strict}
+        if "size_constraints" in _inspect.signature(M().process_command_response_stream).parameters:
+            # what the dispatcher hands to a walker that takes a constraint list: a fresh one per decode of the stream
+            ctx.ghost["stream_list"] = kw["size_constraints"] = SizeConstraintList()
+        igen = run_sync(I.call(M().process_command_response_stream, (path,), kw))
         from pyvc.interp import PathEnd
         try:
             outcome = drive_coroutine(ctx, igen)
